@@ -13,8 +13,9 @@ Hand-written executable model of the code as it is.
   - call level (`tryAcquire`, `record`, `release`, and `Sys`/`cstep`): `Execute` split into
     acquire → outcome → record → release; concurrent callers interleave between these.
   - atomic level (`Pc`, `fstep`): every shared-memory access of `tryAcquire`/`record` is its
-    own step, as the code performs them WITHOUT holding `b.mu` across the read and the
-    transition.
+    own step: the unlocked `State()` read, then `openToHalfOpen()` / `halfOpenToClosed()` /
+    `toOpen()` each as ONE critical section of `b.mu` that re-validates the source state
+    (code after fix 42b281d).
 -/
 namespace GoaktVerif.Model.C47
 
@@ -143,13 +144,30 @@ def transitionTo (cf : Conf) (now : Int) (target : St) (b : Br) : Br :=
 def trySem (cf : Conf) (b : Br) : (Bool × Bool) × Br :=
   if b.sem < cf.hmax then ((true, true), { b with sem := b.sem + 1 }) else ((false, false), b)
 
+/-- `openToHalfOpen()` (one critical section of `b.mu`): Open → HalfOpen only if the breaker is
+    still Open and the deadline has passed; returns the state it is in afterwards -/
+def openToHalfOpen (now : Int) (b : Br) : St × Br :=
+  if b.state ≠ .opened then (b.state, b)
+  else if now < b.openUntil then (.opened, b)
+  else (.halfOpen, { b with w := b.w.hardReset now, state := .halfOpen })
+
+/-- `halfOpenToClosed()` (one critical section of `b.mu`): closes only a breaker that is still HalfOpen -/
+def halfOpenToClosed (now : Int) (b : Br) : Br :=
+  if b.state ≠ .halfOpen then b
+  else { b with w := b.w.hardReset now, state := .closed }
+
+/-- what `tryAcquire` does with the state reported by `openToHalfOpen()` -/
+def afterOpenCheck (cf : Conf) (r : St × Br) : (Bool × Bool) × Br :=
+  match r.1 with
+  | .closed => ((true, false), r.2)
+  | .opened => ((false, false), r.2)
+  | .halfOpen => trySem cf r.2
+
 /-- `tryAcquire()` run without interference: (allowed, acquired) and the new state -/
 def tryAcquire (cf : Conf) (now : Int) (b : Br) : (Bool × Bool) × Br :=
   match b.state with
   | .closed => ((true, false), b)
-  | .opened =>
-    if now < b.openUntil then ((false, false), b)
-    else trySem cf (transitionTo cf now .halfOpen b)
+  | .opened => afterOpenCheck cf (openToHalfOpen now b)
   | .halfOpen => trySem cf b
 
 /-- the threshold test of `record` on the totals returned by `add` -/
@@ -163,8 +181,7 @@ def record (cf : Conf) (now : Int) (success : Bool) (b : Br) : Br :=
   let b1 : Br := if success then { b with w := r.1, lastSuccess := now } else { b with w := r.1, lastFailure := now }
   if !enough cf r.2 then b1
   else if tripped cf r.2 then transitionTo cf now .opened b1
-  else if b1.state = .halfOpen then transitionTo cf now .closed b1
-  else b1
+  else halfOpenToClosed now b1
 
 /-- `release()` -/
 def release (b : Br) : Br := { b with sem := b.sem - 1 }
@@ -202,8 +219,8 @@ inductive COp where
   | begin (id : Nat)                 -- caller `id` runs `tryAcquire` (ctx not done)
   | finish (id : Nat) (o : Outcome)  -- `fn` of caller `id` returns; record + release
   | precancelled                     -- `Execute` with a ctx that is already done: nothing happens
-  | staleToHalfOpen                  -- a caller preempted after its `Open ∧ now ≥ openUntil` check resumes: `toHalfOpen()`
-  | staleToClosed                    -- a `record` preempted after reading `HalfOpen` resumes: `toClosed()`
+  | staleToHalfOpen                  -- a caller preempted after reading `state == Open` resumes: `openToHalfOpen()`
+  | staleToClosed                    -- a `record` preempted after its evaluation resumes: `halfOpenToClosed()`
   | metrics
   | tick (d : Nat)
   deriving Repr, DecidableEq
@@ -231,8 +248,8 @@ def cstep (cf : Conf) (s : Sys) : COp → Sys × COut
     | some c =>
       ({ s with b := finish cf s.now o c.2 s.b, inflight := s.inflight.filter (fun c => c.1 != id) }, .unit)
   | .precancelled => (s, .unit)
-  | .staleToHalfOpen => ({ s with b := transitionTo cf s.now .halfOpen s.b }, .unit)
-  | .staleToClosed => ({ s with b := transitionTo cf s.now .closed s.b }, .unit)
+  | .staleToHalfOpen => ({ s with b := (openToHalfOpen s.now s.b).2 }, .unit)
+  | .staleToClosed => ({ s with b := halfOpenToClosed s.now s.b }, .unit)
   | .metrics => let r := metrics cf s.now s.b; ({ s with b := r.1 }, .totals r.2.1 r.2.2)
   | .tick d => ({ s with now := s.now + d }, .unit)
 
@@ -247,13 +264,11 @@ def crun (cf : Conf) (s : Sys) : List COp → Sys × List COut
 
 inductive Pc where
   | idle
-  | acqCheck                          -- read `state == Open`; next: clock vs openUntil
-  | acqToHalf                         -- decided to call `toHalfOpen()`
+  | acqOpen                           -- read `state == Open`; next: `openToHalfOpen()`
   | acqSem                            -- about to try the semaphore
   | running (tok : Bool)              -- inside `fn`
   | recEval (tok : Bool) (t : Nat × Nat)   -- `add` done, totals in hand
-  | recReadState (tok : Bool)
-  | recToClosed (tok : Bool)
+  | recToClosed (tok : Bool)          -- acceptable rate: next is `halfOpenToClosed()`
   | rel (tok : Bool)
   | done (admitted : Bool)
   deriving Repr, DecidableEq
@@ -278,10 +293,14 @@ def pcStep (cf : Conf) (now : Int) (b : Br) (o : Outcome) : Pc → Option (Br ×
   | .idle =>
     match b.state with
     | .closed => some (b, .running false)
-    | .opened => some (b, .acqCheck)
+    | .opened => some (b, .acqOpen)
     | .halfOpen => some (b, .acqSem)
-  | .acqCheck => if now < b.openUntil then some (b, .done false) else some (b, .acqToHalf)
-  | .acqToHalf => some (transitionTo cf now .halfOpen b, .acqSem)
+  | .acqOpen =>
+    let r := openToHalfOpen now b
+    match r.1 with
+    | .closed => some (r.2, .running false)
+    | .opened => some (r.2, .done false)
+    | .halfOpen => some (r.2, .acqSem)
   | .acqSem =>
     let r := trySem cf b
     if r.1.1 then some (r.2, .running true) else some (r.2, .done false)
@@ -297,9 +316,8 @@ def pcStep (cf : Conf) (now : Int) (b : Br) (o : Outcome) : Pc → Option (Br ×
   | .recEval tok t =>
     if !enough cf t then some (b, .rel tok)
     else if tripped cf t then some (transitionTo cf now .opened b, .rel tok)
-    else some (b, .recReadState tok)
-  | .recReadState tok => if b.state = .halfOpen then some (b, .recToClosed tok) else some (b, .rel tok)
-  | .recToClosed tok => some (transitionTo cf now .closed b, .rel tok)
+    else some (b, .recToClosed tok)
+  | .recToClosed tok => some (halfOpenToClosed now b, .rel tok)
   | .rel tok => some (if tok then release b else b, .done true)
   | .done _ => none
 
